@@ -99,6 +99,8 @@ package generator
 //@   ensures@C13 builder.GenInv(g) && builder.GenCtx(g, ctx)
 //@   ensures err == nil ==> result1 != nil && result1.Code != nil
 //@   at call g.shouldCreateSubMethod#1 assert !has(g.extend.Exact, xtype.SignatureOf(source, target)) && !has(g.lookup.Exact, xtype.SignatureOf(source, target))
+//@   at call g.buildNoLookup#* assert !has(g.extend.Exact, xtype.SignatureOf(source, target)) && !has(g.lookup.Exact, xtype.SignatureOf(source, target))
+//@   at call g.createSubMethod#* assert !has(g.extend.Exact, xtype.SignatureOf(source, target)) && !has(g.lookup.Exact, xtype.SignatureOf(source, target))
 
 //@ func generator.Assign
 //@   props C03 C06
@@ -106,6 +108,8 @@ package generator
 //@   requires@C13 GenCall(g, ctx, sourceID, source, target) && builder.AssignOK(assignTo)
 //@   ensures@C13 builder.GenInv(g) && builder.GenCtx(g, ctx)
 //@   at call g.shouldCreateSubMethod#1 assert !has(g.extend.Exact, xtype.SignatureOf(source, target)) && !has(g.lookup.Exact, xtype.SignatureOf(source, target))
+//@   at call g.assignNoLookup#* assert !has(g.extend.Exact, xtype.SignatureOf(source, target)) && !has(g.lookup.Exact, xtype.SignatureOf(source, target))
+//@   at call g.createSubMethod#* assert !has(g.extend.Exact, xtype.SignatureOf(source, target)) && !has(g.lookup.Exact, xtype.SignatureOf(source, target))
 
 // extend is consulted before the declared/generated methods; a hit is used (or is an error), only
 // "not registered at all" falls through to the automatic rules
@@ -158,3 +162,10 @@ package generator
 //@   requires@C13 g != nil && g.conf != nil && m != nil
 //@   assigns nothing
 //@   ensures result != nil
+
+// ---- C17/C06: every registration error of a declared method aborts the generation ----
+//@ func setupGenerator
+//@   props C17 C06 C03
+//@   propagates
+//@   requires@C13 converter != nil && n != nil
+//@   ensures err == nil ==> result != nil
